@@ -1,6 +1,7 @@
 package sim
 
 import (
+	"reflect"
 	"runtime"
 	"context"
 	"encoding/json"
@@ -101,6 +102,10 @@ type ReqCtx struct {
 	AllThunk bool
 	// Gates: whether callbacks publish gates/notes to the simulator.
 	Gates bool
+	// ForeignEnum makes resolvers hand back enum values in another Go type than
+	// the one the enum was declared with (int64 for int, a named string type,
+	// float32 for float64) - as a data source would.
+	ForeignEnum bool
 	// RootTok is the expected root token, Vars the variables as supplied.
 	RootTok Tok
 
@@ -218,6 +223,30 @@ type World struct {
 	// that no field references (see Retyped).
 	WithD bool
 	cfg   graphql.SchemaConfig
+	dyn   interface{} // source of Query.plainDyn: a struct of a type made for this world
+}
+
+// foreignStr is a named string type (an enum value as a data source's own type).
+type foreignStr string
+
+// dynSeq makes every world's dynamic struct type a type no earlier run has seen.
+var dynSeq atomic.Int64
+
+// newDynSource returns a value of a struct type created for this world alone
+// (reflect.StructOf with a uniquely named padding field): whatever a library
+// caches per Go type is cold for it, in every run of a process.
+func newDynSource() interface{} {
+	t := reflect.StructOf([]reflect.StructField{
+		{Name: "Name", Type: reflect.TypeOf("")},
+		{Name: "N", Type: reflect.TypeOf(0)},
+		{Name: "Tag", Type: reflect.TypeOf("")},
+		{Name: fmt.Sprintf("Pad%d", dynSeq.Add(1)), Type: reflect.TypeOf(false)},
+	})
+	v := reflect.New(t).Elem()
+	v.Field(0).SetString("dyn-name")
+	v.Field(1).SetInt(6)
+	v.Field(2).SetString("dyn-tag")
+	return v.Interface()
 }
 
 // internal enum values are deliberately not the names
@@ -288,7 +317,7 @@ var WorldBOnlyField bool
 
 // NewWorld builds a fresh, cold schema.
 func NewWorld(id string, exts ...graphql.Extension) *World {
-	w := &World{ID: id, Obj: map[string]*graphql.Object{}, Possible: map[string][]string{}}
+	w := &World{ID: id, Obj: map[string]*graphql.Object{}, Possible: map[string][]string{}, dyn: newDynSource()}
 
 	w.Kind = graphql.NewEnum(graphql.EnumConfig{
 		Name: "Kind",
@@ -569,6 +598,7 @@ func NewWorld(id string, exts ...graphql.Extension) *World {
 			"deepNN":   &graphql.Field{Type: graphql.NewNonNull(deep)},
 			"echo":     &graphql.Field{Type: graphql.String, Args: echoArgs},
 			"echo2":    &graphql.Field{Type: graphql.String, Args: echo2Args},
+			"plainDyn": &graphql.Field{Type: plain, Resolve: func(p graphql.ResolveParams) (interface{}, error) { return w.dyn, nil }},
 			"plainA":   &graphql.Field{Type: plain, Resolve: func(p graphql.ResolveParams) (interface{}, error) { return plainRecA(), nil }},
 			"plainB":   &graphql.Field{Type: plain, Resolve: func(p graphql.ResolveParams) (interface{}, error) { return plainRecB(), nil }},
 			"plainPtr": &graphql.Field{Type: plain, Resolve: func(p graphql.ResolveParams) (interface{}, error) { return plainRecPtr(), nil }},
@@ -674,7 +704,7 @@ func NewWorld(id string, exts ...graphql.Extension) *World {
 // dropped again). A value resolving to D is a possible type of Node in the one
 // schema and an error in the other.
 func (w *World) Retyped() *World {
-	n := &World{ID: w.ID, Obj: w.Obj, Node: w.Node, U: w.U, Solo: w.Solo, FC: w.FC, Kind: w.Kind, Stamp: w.Stamp, SubSource: w.SubSource,
+	n := &World{ID: w.ID, Obj: w.Obj, Node: w.Node, U: w.U, Solo: w.Solo, FC: w.FC, dyn: w.dyn, Kind: w.Kind, Stamp: w.Stamp, SubSource: w.SubSource,
 		Possible: w.Possible, PanicLiteral: w.PanicLiteral, GateScalars: w.GateScalars, WithD: !w.WithD}
 	cfg := w.cfg
 	cfg.Types = []graphql.Type{w.Obj["A"], w.Obj["B"], w.Obj["C"]}
@@ -1045,7 +1075,18 @@ func (w *World) gen(rc *ReqCtx, t graphql.Type, coord, path string, args map[str
 		}
 		return nil
 	case *graphql.Enum:
-		return kindValues[hash64(coord, path, "k")%3]
+		kv := kindValues[hash64(coord, path, "k")%3]
+		if rc != nil && rc.ForeignEnum {
+			switch x := kv.(type) {
+			case int:
+				return int64(x)
+			case string:
+				return foreignStr(x)
+			case float64:
+				return float32(x)
+			}
+		}
+		return kv
 	case *graphql.Object:
 		r := 0
 		if rc != nil {
